@@ -186,3 +186,42 @@ Proof.
   - destruct (new_request_from_advertise req_xid x) as [req| | |]; [|discriminate..].
     destruct (first_reply6 req_xid _ ph2); discriminate.
 Qed.
+
+(** REQUEST / REPLY are paired by the REQUEST's own transaction id: the outcome is the FIRST datagram of
+    the second phase that decodes as a message carrying that id; everything before it (other ids - e.g. a
+    late or duplicated answer to the SOLICIT -, relay messages, undecodable datagrams) is ignored *)
+Lemma first_reply6_any xid ws r : first_reply6 xid (fun _ => true) ws = Some r ->
+  exists pre w post, ws = pre ++ w :: post /\ reaches_call6 xid w = Some r /\
+                     Forall (fun x => reaches_call6 xid x = None) pre.
+Proof.
+  induction ws as [|w ws IH]; cbn [first_reply6]; [discriminate|].
+  destruct (reaches_call6 xid w) as [m|] eqn:R.
+  - intros [= <-]. exists [], w, ws. split; [reflexivity|]. split; [exact R | constructor].
+  - intros H. destruct (IH H) as (pre & w' & post & -> & Hr & F).
+    exists (w :: pre), w', post. split; [reflexivity|]. split; [exact Hr | constructor; assumption].
+Qed.
+
+Theorem request_paired_by_xid sol_xid req_xid ph1 ph2 req r :
+  rapid_solicit sol_xid req_xid ph1 ph2 = V6Requested req r ->
+  exists pre w post, ph2 = pre ++ w :: post /\ reaches_call6 req_xid w = Some r /\
+                     Forall (fun x => reaches_call6 req_xid x = None) pre.
+Proof.
+  unfold rapid_solicit. destruct (first_reply6 sol_xid _ ph1) as [x|]; [|discriminate].
+  destruct (msg_type x =? 7)%N; [discriminate|].
+  destruct (new_request_from_advertise req_xid x) as [rq| | |]; [|discriminate..].
+  destruct (first_reply6 req_xid _ ph2) as [rr|] eqn:F; [|discriminate].
+  intros [= <- <-]. apply first_reply6_any. exact F.
+Qed.
+
+Lemma reaches_call6_xid xid w t x os : reaches_call6 xid w = Some (Msg t x os) -> x = xid.
+Proof.
+  unfold reaches_call6. destruct (dec_message w) as [[t' x' os'|]| | |]; try discriminate.
+  destruct (bytes_eqb x' xid) eqn:E; [|discriminate]. intros [= _ <- _]. apply bytes_eqb_eq. exact E.
+Qed.
+
+(** in particular a datagram that carries another transaction id - the SOLICIT's, say - is never the outcome *)
+Corollary other_xid_ignored req_xid w : (forall t os, dec_message w <> Ok (Msg t req_xid os)) -> reaches_call6 req_xid w = None.
+Proof.
+  intros H. unfold reaches_call6. destruct (dec_message w) as [[t x os|]| | |] eqn:D; try reflexivity.
+  destruct (bytes_eqb x req_xid) eqn:E; [|reflexivity]. apply bytes_eqb_eq in E. subst x. exfalso. exact (H t os eq_refl).
+Qed.
